@@ -166,7 +166,7 @@ func corrVersions(ctx *Ctx, e *Eco, cands []string, p *Pool, m [][]int) {
 
 func checkC01(ctx *Ctx) {
 	res := ctx.Res
-	n := 170
+	n := 230
 	if !ctx.Quick {
 		n = 420
 	}
